@@ -65,3 +65,18 @@ package crypto
 //@   ensures[bls] judged(b.bls12381[idx], badIndices)
 //@   ensures[secp] judged(b.secp256k1[idx], badIndices)
 //@   ensures[eth] judged(b.ethSecp256k1[idx], badIndices)
+
+// ---- C17: the two directions of a connection never share a key --------------------------------------------------
+// The send key and the receive key are the two DISJOINT 32-byte segments of one HKDF output, and which endpoint sends
+// with which segment is decided by the order of the two ephemeral public keys - so an endpoint's send key is never
+// its own receive key (even against a peer that echoes the endpoint's own ephemeral key back: reflection), and the
+// two honest endpoints pair the segments consistently.
+//@ func golang.org/x/crypto/chacha20poly1305.New
+//@   trusted
+//@   pure
+//@ func golang.org/x/crypto/hkdf.New
+//@   trusted
+//@   pure
+//@ func HKDFSecretsAndChallenge
+//@   callsite New@2 requires[sendkey] bytes(arg0) == (bytesCmp(bytes(ePub), bytes(ePeerPub)) < 0 ? bytes(buffer[32:64]) : bytes(buffer[0:32]))
+//@   callsite New@3 requires[receivekey] bytes(arg0) == (bytesCmp(bytes(ePub), bytes(ePeerPub)) < 0 ? bytes(buffer[0:32]) : bytes(buffer[32:64]))
